@@ -66,15 +66,20 @@ func (q *queue) Ack(prefix string, pkt packet.Packet) error {
 	switch p := pkt.(type) {
 	case Ackers:
 		k := hashKey(prefix, p.GetMessageId())
-		v, ok := q.msg.Delete(k)
+		v, ok := q.msg.Get(k)
 		if !ok {
 			return ErrWrongMID
 		}
 		msg := v.(message)
-		q.timeouts.Delete(k, msg.deadline)
 		if msg.state != pkt.Type() {
+			// not the packet this exchange is waiting for: the entry stays in flight
 			return fmt.Errorf("unexpected packet type: wanted %v, got %v", msg.state, pkt.Type())
 		}
+		if _, ok = q.msg.Delete(k); !ok {
+			// resolved concurrently
+			return ErrWrongMID
+		}
+		q.timeouts.Delete(k, msg.deadline)
 		msg.callback(false, msg.pkt, pkt)
 		return nil
 	default:
